@@ -419,6 +419,27 @@ TYPES = [('FormulaGrader', 'samples', 2.5), ('FormulaGrader', 'samples', '3'), (
          ('StringGrader', 'answers', 3), ('StringGrader', 'answers', {'grade_decimal': 1}), ('StringGrader', 'answers', {'expect': 'a', 'ok': 'maybe'})]
 
 
+POSITIONAL = [('RealInterval', [1, 2, 3]), ('RealInterval', [1]), ('RealInterval', []), ('IntegerRange', [1, 2, 3, 4]), ('IntegerRange', [1.5, 2]),
+              ('ComplexRectangle', {'re': [1, 2, 3]}), ('ComplexSector', {'argument': [0, 1, 2]}), ('RealVectors', {'norm': [1, 2, 3]}), ('RealVectors', {'shape': [2, 2]}),
+              ('DiscreteSet', ()), ('SpecificFunctions', []), ('FormulaGrader', {'answers': '1', 'variables': ['x'], 'sample_from': {'x': [1, 2, 3]}}),
+              ('FormulaGrader', {'answers': '1', 'variables': ['x'], 'sample_from': {'y': [1, 2]}}), ('IdentityMatrixMultiples', {'sampler': [1, 2, 3]})]
+
+
+def h_positional(E, idx):
+    """list / positional configuration forms of the wrong length or shape are refused"""
+    import mitxgraders as m
+    from voluptuous import Error as VError
+    from mitxgraders.exceptions import ConfigError
+    cls, cfg = POSITIONAL[idx]
+    try:
+        getattr(m, cls)(cfg)
+        E.check('out-of-domain-value-raises-and-no-object-results', False)
+        return 'constructed'
+    except (VError, ConfigError) as e:
+        E.check('out-of-domain-value-raises-and-no-object-results', True)
+        return type(e).__name__
+
+
 def h_types(E, idx):
     import mitxgraders as m
     from voluptuous import Error as Invalid
@@ -461,6 +482,8 @@ def harnesses(tier):
         add(h_answers, 'answers', dict(i=i), '%s %r' % ANSWERS[i])
     for i in range(len(KWDICT)):
         add(h_kwargs_dict, 'kwargs_dict', dict(i=i), '%s %r' % (KWDICT[i][0], sorted(KWDICT[i][1])), validate=False)
+    for i in range(len(POSITIONAL)):
+        add(h_positional, 'positional', dict(i=i), '%s(%r)' % POSITIONAL[i], validate=False)
     for i in range(len(TYPES)):
         add(h_types, 'types', dict(i=i), '%s.%s=%r' % TYPES[i])
     return hs
